@@ -112,6 +112,8 @@ func Plans() map[string]*Plan {
 			Parts: []Part{
 				concPart("C04", "S-CONC", 40000, 4000000, p, RunOpts{Porcupine: true}),
 				timePart("C04", "S-TIME", 8000, 800000, p, RunOpts{Porcupine: true}),
+				ioConcPart("C04", 8000, 800000, p, RunOpts{}),
+				ioEnumPart("C04", 150, 15000),
 			},
 			Rule:       "S-CONC/S-TIME: 2-4 simulated processes, 2-6 ops each, interleaved at single filesystem calls by PCT/sticky/uniform schedulers with window biases; non-trivial = at least 3 schedule segments and at least 2 commits; distinct = distinct hash of the shared-path event sequence projected to (task, call kind, path class, result)",
 			Nontrivial: concNontrivial}
@@ -128,6 +130,8 @@ func Plans() map[string]*Plan {
 				concPart("C05", "S-CONC", 24000, 2400000, p, RunOpts{}),
 				crashPart("C05", "S-CRASH-RAND", 18000, 1800000, p, RunOpts{}),
 				{Name: "S-CRASH-ENUM", Quick: 500, Thorough: 50000, Gen: func(seed uint64) *RunSpec { return GenCrashEnum("C05", seed) }, Exec: ExecCrashEnum},
+				ioEnumPart("C05", 300, 30000),
+				ioConcPart("C05", 6000, 600000, p, RunOpts{}),
 			},
 			Rule:       "S-CONC, S-CRASH-RAND and S-CRASH-ENUM (every crash point of sampled operation instances, as in C06); list-integrity checked after every mutating filesystem call of every process and after every crash; non-trivial = >=3 schedule segments and >=2 list versions; distinct = distinct projected event-sequence hash",
 			Nontrivial: concNontrivial}
@@ -174,6 +178,7 @@ func Plans() map[string]*Plan {
 			Parts: []Part{
 				concPart("C08", "S-CONC/lock-heavy", 30000, 3000000, p, RunOpts{}),
 				crashPart("C08", "S-CRASH-RAND", 9000, 900000, p, RunOpts{}),
+				ioConcPart("C08", 8000, 800000, p, RunOpts{}),
 			},
 			Rule: "lock-heavy S-CONC/S-CRASH-RAND (compactions racing Adds and each other); lock-tenure monitor on every create/remove/rename of *.lock; non-trivial = a lock acquisition failed with EEXIST or another process ran inside a compaction's unlocked window; distinct = distinct projected event-sequence hash",
 			Nontrivial: func(r *RunResult) bool {
@@ -207,6 +212,7 @@ func Plans() map[string]*Plan {
 			Parts: []Part{
 				concPart("C10", "S-CONC/readers-vs-churn", 40000, 4000000, p, RunOpts{}),
 				timePart("C10", "S-TIME", 8000, 800000, p, RunOpts{}),
+				ioConcPart("C10", 8000, 800000, p, RunOpts{}),
 			},
 			Rule: "reader/reloader processes against 1-3 churn processes (Add, compactions), every ReadAt/open a scheduling point; non-trivial = a reload hit a vanished table or a read ran through a handle that was stale; distinct = distinct projected event-sequence hash",
 			Nontrivial: func(r *RunResult) bool {
@@ -281,6 +287,8 @@ func Plans() map[string]*Plan {
 				concPart("C16", "S-CONC/failure-paths", 24000, 2400000, p, RunOpts{}),
 				crashPart("C16", "S-CRASH-RAND", 9000, 900000, p, RunOpts{}),
 				turnPart("C16", "S-TURN", 9000, 900000, q, RunOpts{}),
+				ioEnumPart("C16", 300, 30000),
+				ioConcPart("C16", 6000, 600000, p, RunOpts{}),
 			},
 			Rule: "S-CONC with failure paths provoked (contended Adds, rejected transactions, lost lock races, empty stacks, Clean/Close in all states), S-CRASH-RAND, S-TURN; residue monitors at every idle point and at quiescence; non-trivial = some operation failed or lost a lock race; distinct = distinct projected event-sequence hash",
 			Nontrivial: func(r *RunResult) bool {
